@@ -3,7 +3,7 @@
    character classes: SlskGen.CharTable, regenerated from the running interpreter on every run.
    [ops_ok]: every LoadSettings operation lists each directory path once. *)
 From Slsk Require Import Base.Tac.
-From SlskGen Require Import CharTable.
+From SlskGen Require Import CharTable SharesGen.
 From Slsk Require Import C07.Model C07.Proofs.
 
 (* the generated character table has the closure properties the proofs use *)
@@ -51,6 +51,19 @@ Proof.
   - apply parse_lowered.
 Qed.
 
+(* the term-map pass is only an optimisation: any selection of indexed items that keeps what the regular expressions accept
+   (such as the UNION of the term-map sets instead of their intersection) gives exactly the same query results; a change of
+   the set operator for include terms can therefore not produce a failing input: broken tie without counterexample *)
+Theorem C07_prefilter_benign : forall ops qs ph (pf : list item) x,
+  let s := run ops in let q := parse qs in
+  has_inclusion q = true ->
+  (forall y, In y pf -> In y (indexed s)) ->
+  (forall y, In y (indexed s) -> matches q y = true -> In y pf) ->
+  (In x (filter (fun y => matches q y && phrase_free ph y) pf) <-> In x (query_all s q ph)).
+Proof.
+  intros ops qs ph pf x s q Hi. apply prefilter_benign; [exact (termmap_inv ops) | exact Hi | apply parse_lowered].
+Qed.
+
 Theorem C07_cap : forall ops q ph n,
   length (query_items (run ops) q ph n) = Nat.min n (length (query_all (run ops) q ph)) /\
   (forall x, In x (query_items (run ops) q ph n) -> In x (query_all (run ops) q ph)).
@@ -96,6 +109,17 @@ Qed.
 (* the reported file count is the number of items held by the listed directories *)
 Theorem C07_stats : forall s, snd (get_stats s) = length (listed_items s).
 Proof. exact stats_files. Qed.
+
+(* the reported folder count is the number of distinct directories (absolute paths) containing a held file *)
+Theorem C07_stats_folders : forall ops, ops_ok ops ->
+  fst (get_stats (run ops)) = length (dedup (map dir_of (listed_items (run ops)))).
+Proof. exact stats_folders. Qed.
+
+(* without the premise ops_ok the counts are wrong (finding F29): a settings list naming a path twice lists the directory
+   twice and get_stats reports 2 files for 1 *)
+Theorem C07_load_duplicates_refuted : exists ops,
+  ~ NoDup (map dpath (listed (run ops))) /\ snd (get_stats (run ops)) = 2 /\ length (dedup (map abs_path (listed_items (run ops)))) = 1.
+Proof. exact load_duplicates_refuted. Qed.
 
 (* non-vacuity: a reachable state; the wildcard query that used to return nothing (F04) returns both files; after the
    history that used to leave stale pointers (F05) the moved item points at its new directory and is named relative to it *)
